@@ -15,6 +15,7 @@ void verif_mpz_bv(mpz_ptr z, const char *name, int64_t lo, int64_t hi); // symbo
 double verif_mpz_real(mpz_srcptr z);                         // exact value of an mpz as a real-mode double
 int verif_mpz_is_symbolic(mpz_srcptr z);
 void verif_assume(bool c);
+void verif_axiom(bool c);                                   // valid fact about an uninterpreted symbol; no feasibility query
 void verif_assert(bool c, const char *msg);
 void verif_assert_req(double a, double b, const char *msg);  // a == b over the reals (both sides real-mode or concrete)
 void verif_assert_mpz_eq(mpz_srcptr a, mpz_srcptr b, const char *msg);
